@@ -1,4 +1,5 @@
 import Thanos.Model.Retention
+import Thanos.Model.CleanerHist
 import Thanos.Generated.Facts
 /-
   C32 — Blocks are deleted only when retention and delays allow it.
@@ -207,7 +208,125 @@ theorem C32_partial (now : Int) (marked : List Nat) (ps : List Partial) (i : Nat
         simp only [nsPerMs] at hc ⊢
         omega
 
+-- ---------------------------------------------------------------- histories of one filter + cleaner
+
+end Thanos.Retention
+
+namespace Thanos.CleanerHist
+open Thanos.Retention
+
+/-- a deletion is justified in state `s`: the block has, in the bucket, at this moment, a
+    deletion mark older than the delay -/
+def Justified (now delay : Int) (s : St) (id : Nat) : Prop :=
+  ∃ t, (id, some t) ∈ s.blocks ∧ now - t * nsPerSec > delay
+
+/-- every deletion of every compactor iteration of a history is justified in the state in which
+    the iteration starts -/
+def AllJustified (replace : Bool) (now delay : Int) : St → List Step → Prop
+  | _, [] => True
+  | s, st :: rest =>
+    (st = .iterate → ∀ id ∈ (step replace now delay s st).2, Justified now delay s id) ∧
+    AllJustified replace now delay (step replace now delay s st).1 rest
+
+theorem mem_fresh {blocks : List (Nat × Option Int)} {id : Nat} {t : Int} :
+    (id, t) ∈ fresh blocks ↔ (id, some t) ∈ blocks := by
+  simp only [fresh, List.mem_filterMap]
+  constructor
+  · rintro ⟨⟨i, m⟩, hp, h⟩
+    cases m with
+    | none => simp at h
+    | some x =>
+      simp only [Option.map_some, Option.some.injEq, Prod.mk.injEq] at h
+      obtain ⟨rfl, rfl⟩ := h
+      exact hp
+  · intro h
+    exact ⟨(id, some t), h, by simp⟩
+
+/-- **One iteration (repaired filter)**: from ANY state — whatever the filter remembered — a
+    block deleted by the cleaner has a current mark in the bucket older than the delay. -/
+theorem C32_hist_iterate (now delay : Int) (s : St) (id : Nat)
+    (h : id ∈ (step true now delay s .iterate).2) : Justified now delay s id := by
+  simp only [step, filterMap', if_true, List.mem_filter, toDelete, List.mem_map] at h
+  obtain ⟨⟨⟨i, t⟩, hp, rfl⟩, _⟩ := h
+  simp only [cleans, decide_eq_true_eq] at hp
+  exact ⟨t, mem_fresh.mp hp.1, hp.2⟩
+
+/-- … and after every sync the filter's map is exactly the marks in the bucket. -/
+theorem C32_hist_sync_inv (now delay : Int) (s : St) :
+    (step true now delay s .sync).1.fmap = fresh s.blocks ∧
+    (step true now delay s .iterate).1.fmap = fresh s.blocks := by
+  simp [step, filterMap']
+
+/-- **Histories (repaired filter)**: for every history of marking, un-marking, re-marking, syncs
+    and compactor iterations over one long-lived filter + cleaner, from any state, every block a
+    cleaning step deletes has at that moment a deletion mark in the bucket older than the delay. -/
+theorem C32_hist (now delay : Int) : ∀ (steps : List Step) (s : St), AllJustified true now delay s steps
+  | [], _ => trivial
+  | st :: rest, s => ⟨fun e id hid => by subst e; exact C32_hist_iterate now delay s id hid,
+      C32_hist now delay rest _⟩
+
+/-- the full-strength statement for a given way of updating the filter's map -/
+def C32_hist_full (replace : Bool) : Prop :=
+  ∀ (now delay : Int) (steps : List Step) (s : St), s.fmap = [] → AllJustified replace now delay s steps
+
+/-- a filter that replaced its map on every sync would satisfy it -/
+theorem C32_hist_holds_if_replaced : C32_hist_full true := fun now delay steps s _ => C32_hist now delay steps s
+
+/-- What the code as it is (merging update, pinned by the upstream test
+    `TestDeletionMarkFilter_HoldsOntoMarks`) does guarantee, from ANY state: a block deleted by an
+    iteration has a CURRENT mark older than the delay, or has NO mark in the bucket any more while
+    the filter still holds the mark it had at an earlier sync, and that one is older than the
+    delay.  In particular a current mark always wins over a remembered one: re-marking a block
+    restarts the delay. -/
+theorem C32_hist_merge_partial (now delay : Int) (s : St) (id : Nat)
+    (h : id ∈ (step false now delay s .iterate).2) :
+    Justified now delay s id ∨
+      ((id, none) ∈ s.blocks ∧ ∃ t, lookup s.fmap id = some t ∧ now - t * nsPerSec > delay) := by
+  simp only [step, filterMap', Bool.false_eq_true, if_false, List.mem_filter, toDelete, List.mem_map] at h
+  obtain ⟨⟨⟨i, t⟩, hp, rfl⟩, _⟩ := h
+  simp only [cleans, decide_eq_true_eq, List.mem_filterMap] at hp
+  obtain ⟨⟨⟨j, m⟩, hb, hm⟩, hold⟩ := hp
+  cases m with
+  | some x =>
+    simp only [Option.some.injEq, Prod.mk.injEq] at hm
+    obtain ⟨rfl, rfl⟩ := hm
+    exact Or.inl ⟨x, hb, hold⟩
+  | none =>
+    simp only [Option.map_eq_some_iff, Prod.mk.injEq] at hm
+    obtain ⟨t', hl, rfl, rfl⟩ := hm
+    exact Or.inr ⟨hb, t', hl, hold⟩
+
+/-- **The finding** (kept: upstream pins the behaviour with a test): with the merging update (`maps.Copy` into the old map) a
+    mark that an operator removed stays in the filter, and the cleaner deletes the un-marked
+    block.  Witness: mark (100 s old, delay 10 s), sync, remove the mark, iterate. -/
+theorem C32_hist_merge_false : ¬ C32_hist_full false := by
+  intro h
+  have h := h 1000000000000 10000000000 [.mark 1 900, .sync, .unmark 1, .iterate] ⟨[(1, none)], []⟩ rfl
+  unfold AllJustified at h; obtain ⟨_, h⟩ := h
+  unfold AllJustified at h; obtain ⟨_, h⟩ := h
+  unfold AllJustified at h; obtain ⟨_, h⟩ := h
+  unfold AllJustified at h; obtain ⟨h, _⟩ := h
+  obtain ⟨t, hm, _⟩ := h rfl 1 (by decide)
+  have e : (step false 1000000000000 10000000000 (step false 1000000000000 10000000000
+      (step false 1000000000000 10000000000 ⟨[(1, none)], []⟩ (.mark 1 900)).1 .sync).1 (.unmark 1)).1.blocks
+      = [(1, none)] := by decide
+  rw [e] at hm
+  simp at hm
+
+end Thanos.CleanerHist
+
+namespace Thanos.Retention
+
 -- ---------------------------------------------------------------- regenerated facts
+
+/-- `Filter` reads deletion-mark.json of every block on every call (no guard around ReadMarker) … -/
+theorem C32_fact_filterReadsAlways : Thanos.Facts.deletionFilterReadGuards = [] := by decide
+/-- … and then sets its map to what it read -/
+theorem C32_fact_filterMapUpdate : Thanos.Facts.deletionFilterMapUpdate =
+    (if Thanos.CleanerHist.codeReplace then ["f.deletionMarkMap = deletionMarkMap"]
+     else ["if f.deletionMarkMap == nil { f.deletionMarkMap = make(map[ulid.ULID]*metadata.DeletionMark) }",
+           "maps.Copy(f.deletionMarkMap, deletionMarkMap)",
+           "for u := range f.deletionMarkMap { if _, exists := preFilterMetas[u]; exists { continue } delete(f.deletionMarkMap, u) }"]) := by decide
 
 /-- the conversion of MaxTime in the source is the one `codeMsPrecision` stands for -/
 theorem C32_fact_maxTimeExpr :
